@@ -34,7 +34,7 @@ func vSetup(v6 bool) (d *udpDriver, cfg *UDPv4, sink *N.Sink, src *N.Source, min
 	cfg.srcIP = local
 	cfg.srcPort = V.U16("sport")
 	cfg.LoosenICMPSrc = V.ParamInt("loosen", 0) == 1
-	sink, src = &N.Sink{}, &N.Source{}
+	sink, src = &N.Sink{Takes: V.ParamInt("writeTakes", 0) == 1}, &N.Source{}
 	d = newUDPDriver(cfg, sink, src)
 	m = V.U8("m")
 	V.Assume(m >= min)
